@@ -9,7 +9,7 @@ PY = '/venv/bin/python'
 MC = 'model_checking'
 CHECKS = {
     'C20': (MC, 'stateless exhaustive schedule enumeration (CHESS-style, preemption-bounded) of the real AsyncRunner on real threads under a controlled scheduler (shimmed threading/time + sys.settrace statement-level preemption)',
-            'Twelve drivers (start/queue/await/stop, delayed events and self-termination, pause/unpause, stop while paused, execute_all, two clients, stop during an execute_all cycle, pause racing stop, events queued while paused then stop, a delayed event becoming due while the client queues, a refused second start on a paused runner, one Event object queued three times); for each, every schedule of the runner thread against the client thread(s) with at most 1-3 (quick) / 2-4 (thorough) preemptions is executed on the real code and judged: no deadlock/livelock, executed steps == steps handed to after_execute, events consumed exactly once and FIFO, hooks once, pause/stop semantics.',
+            'Fifteen drivers (start/queue/await/stop, delayed events and self-termination, pause/unpause, stop while paused, execute_all, two clients, stop during an execute_all cycle, pause racing stop, events queued while paused then stop, a delayed event becoming due while the client queues, a refused second start on a paused runner, one Event object queued three times, a pending far-from-due internal event, stop before start, start racing stop); for each, every schedule of the runner thread against the client thread(s) with at most 1-3 (quick) / 2-4 (thorough) preemptions is executed on the real code and judged: no deadlock/livelock, executed steps == steps handed to after_execute, events consumed exactly once and FIFO, hooks once, pause/stop semantics.',
             'GIL modelled at statement granularity in six functions and at Event/Thread/sleep operations; interval=0, virtual time; preemption-bounded, not all schedules.  Both defects it found in the unchanged tree (F11 queue insert race, F13 pause vs stop deadlock) are repaired; the queue lock introduced by the repair is shimmed too.',
             '§4 C20'),
     'C19': (MC, 'exhaustive enumeration of bounded scenarios (all action blocks x all predefined then-steps x argument domains) run through execute_bdd, against an oracle driving a plain Interpreter',
